@@ -677,6 +677,8 @@ def main():
                        "identities monitored with 1e-10 relative",
                        "the last loop of RedfieldFoerster is compared only through the end-to-end identities (not separately callable)"]
     chk.prove()
+    import translate
+    translate.static_tie(cm, chk, PID, cm.REPO)      # second, static tie: model regenerated from the current source
     zitems, zmeta, qitems, qmeta = [], [], [], []
     if args.replay:
         rep = json.load(open(args.replay))
